@@ -26,7 +26,12 @@ class GCCStmtDeclExpr(Hybrid):
         self.effect_ops[0] = stmt
 
     def il_write(self):
-        return self.stmt.il_write()
+        if self.stmt.num_id < 0:
+            # The statement was never added to the ops holder (the BRANCH of a conditional expression).
+            # It has no variable of its own.
+            return self.stmt.il_write()
+        # Use the variable of the statement. Building it a second time leaves the first one unused.
+        return self.stmt.effect_var()
 
     def il_exec(self):
         return self.stmt.il_exec()
